@@ -96,24 +96,28 @@ func parseTilePath(p string) (h, l int, n int64, w int, ok bool) {
 }
 
 type tileStub struct {
-	xsigs  int // extra signature lines by unknown keys on the published checkpoint
-	mu     sync.Mutex
-	tree   *RefTree
-	size   uint64
-	origin string
-	key    *Key
-	world  *World
-	keyIdx int
-	kind   string   // sumdb | tiles
-	ext    []string // extension lines this log puts after the root hash (legal for tlog-tiles style logs)
-	bad    []string // malformed tile requests seen
-	served int
-	cpText string
+	growOnHead, growCap uint64 // the tree grows by growOnHead leaves on every request for the head, up to growCap
+	xsigs               int    // extra signature lines by unknown keys on the published checkpoint
+	mu                  sync.Mutex
+	tree                *RefTree
+	size                uint64
+	origin              string
+	key                 *Key
+	world               *World
+	keyIdx              int
+	kind                string   // sumdb | tiles
+	ext                 []string // extension lines this log puts after the root hash (legal for tlog-tiles style logs)
+	bad                 []string // malformed tile requests seen
+	served              int
+	cpText              string
 }
 
 func (s *tileStub) checkpoint() []byte {
 	s.mu.Lock()
 	defer s.mu.Unlock()
+	if s.growOnHead > 0 && s.size+s.growOnHead <= s.growCap {
+		s.size += s.growOnHead // a busy log: every look at its head shows a larger tree
+	}
 	h := s.tree.Root(s.size)
 	text := CheckpointText(s.origin, s.size, h[:], s.ext...)
 	s.cpText = text
@@ -426,14 +430,26 @@ func c18Grow(t *testing.T, p *Plan, sizes []uint64) (viol []Violation, infra str
 		interval := 10 * time.Second
 		go func() { done <- sumdb.FeedLog(ctx, cl, rw, hc, interval) }()
 		checked := 0
+		moving := p.Cfg.Extra["moving_head"] != 0
 		for _, size := range sizes {
 			stub.mu.Lock()
+			if moving && stub.size > size {
+				size = stub.size // the head has already moved past this step's size: the log never goes backwards
+			}
 			stub.size = size
+			if moving {
+				stub.growOnHead, stub.growCap = 1+uint64(p.Cfg.Extra["moving_head"])%3, size+40
+			}
 			stub.mu.Unlock()
 			time.Sleep(3*interval + time.Second)
 			synctest.Wait()
 			cur, _ := realW.GetCheckpoint(ld.ID)
-			if got := parseStored(cur); !got.Has || got.Size != size {
+			stub.mu.Lock()
+			head := stub.size
+			stub.mu.Unlock()
+			if got := parseStored(cur); moving && got.Has && got.Size >= size && got.Size <= head {
+				// the head moves with every look at it: any head served since the step began will do
+			} else if !got.Has || got.Size != size {
 				viol = append(viol, Violation{Class: "proof_rejected", Sig: "proof_rejected/polling_feeder_stuck", Detail: fmt.Sprintf("one FeedLog lifetime, log sizes %v: after the log reached %d the witness still serves {%s} three poll intervals later", sizes, size, cpBrief(got))})
 				break
 			}
@@ -623,6 +639,9 @@ func init() {
 					ss = append(ss, fmt.Sprint(cur))
 				}
 				p.Cfg.Notes["sizes"] = strings.Join(ss, ",")
+				if r.Chance(0.4) {
+					p.Cfg.Extra["moving_head"] = int64(r.Range(1, 3)) // a busy log: its head has moved on every time it is looked at
+				}
 				return p
 			}
 			switch n % 4 {
